@@ -339,15 +339,38 @@ class Gen:
             extras.append(l + ": " + self.expr(ft, env_nf, fflow, depth + 1))
             self.note("spread_override")
         extra = "".join(", " + e for e in extras)
-        base_src = self.expr(base_t, env, flow, depth + 1)
+        # F93 (real compiler): a name-INHERITING spread (`~[...]`, `x[...]`) resolves the name from the
+        # STATIC type of its source and silently yields an unnamed tuple when that type is a union
+        # (spec l.272/l.286: "preserves name").  Free generation gives the inheriting forms of a NAMED
+        # tuple a source whose static type is a plain tuple (a literal); the reproducers are corpus lines.
+        inherit = want[1] == base_name and r.random() < (0.5 if via_var else 0.6)
+        if inherit and want[1] is not None:
+            base_src = self.build(base_t, env, flow, depth + 1)
+        elif not inherit and r.random() < 0.25:
+            # an EXPLICITLY named / unnamed spread over a source whose static type is a UNION
+            # (a block with a branch of another tuple type that is not taken)
+            self.note("spread_over_union_source")
+            lit = self.build(base_t, list(env), None, depth + 1)
+            if r.random() < 0.75:
+                # the same fields under another name (later accesses to the result stay typable)
+                other = self.build(tup(r.choice([n for n in NAMES if n != base_name]), base_fields), list(env), None, depth + 1)
+            else:
+                other = r.choice(NAMES) + r.choice(["", "[0]", "[k: 1]"])
+            kk = r.randint(0, 9)
+            if r.random() < 0.5:
+                base_src = "%d { =%d => %s | %s }" % (kk, kk, lit, other)
+            else:
+                base_src = "%d { =%d => %s | %s }" % (kk + 1, kk, other, lit)
+        else:
+            base_src = self.expr(base_t, env, flow, depth + 1)
         if via_var:
             x = self.var()
-            if want[1] == base_name and r.random() < 0.5:
+            if inherit:
                 tuple_src = x + "[..." + extra + "]"                      # inherits x's name
             else:
                 tuple_src = (want[1] or "") + "[..." + x + extra + "]"
             return "{ %s = %s, %s }" % (x, base_src, tuple_src)
-        if want[1] == base_name and r.random() < 0.6:
+        if inherit:
             tuple_src = "~[..." + extra + "]"                             # inherits the flow's name
         else:
             tuple_src = (want[1] or "") + "[..." + extra + "]"
